@@ -341,6 +341,101 @@ Fixpoint rl_results_for (c : lim_config) (k : lim_addr) (h : list rl_arrival) (d
 Definition rl_from_subnet (c : lim_config) (k : lim_addr) (e : rl_arrival) : bool :=
   addr_eqb (cfg_subnet c (snd (fst e))) k.
 
+(* ---- the composed limiter seen in two layers (round 4) ----
+   The global bucket is consulted FIRST and evolves on its own: it is charged by every arrival with a valid address,
+   whatever the client limiter then says.  [glob_verdicts g h] = its answers (true = passes). *)
+Fixpoint glob_verdicts (g : option (Z * bucket)) (h : list rl_arrival) : list bool :=
+  match h with
+  | [] => []
+  | (now, a, n) :: h' =>
+      match a, g with
+      | LANone, _ => true :: glob_verdicts g h'
+      | _, None => true :: glob_verdicts None h'
+      | _, Some (lim, b) =>
+          let x := allow_bucket lim lim b now n in fst x :: glob_verdicts (Some (lim, snd x)) h'
+      end
+  end.
+
+Definition rl_conv (d : option bool) : rl_res := match d with Some false => RlClient | _ => RlOk end.
+
+(* resourceLimiter.AllowN with the global bucket's answers GIVEN: an arrival the global bucket refuses never reaches the
+   client limiter *)
+Fixpoint rl_decisions_given (o : opts) (t : lim_table) (h : list rl_arrival) (vs : list bool) : list rl_res :=
+  match h, vs with
+  | (now, a, n) :: h', v :: vs' =>
+      match a with
+      | LANone => RlOk :: rl_decisions_given o t h' vs'
+      | _ => if v then rl_conv (snd (lim_step o t (EvAllow now a n)))
+                         :: rl_decisions_given o (fst (lim_step o t (EvAllow now a n))) h' vs'
+             else RlGlobal :: rl_decisions_given o t h' vs'
+      end
+  | _, _ => []
+  end.
+
+(* the arrivals that reach the client limiter, as limiter events *)
+Fixpoint rl_passed (h : list rl_arrival) (vs : list bool) : list lev :=
+  match h, vs with
+  | (now, a, n) :: h', v :: vs' =>
+      match a with
+      | LANone => rl_passed h' vs'
+      | _ => if v then EvAllow now a n :: rl_passed h' vs' else rl_passed h' vs'
+      end
+  | _, _ => []
+  end.
+
+(* the global answers given to the arrivals of subnet k *)
+Fixpoint rl_verdicts_for (c : lim_config) (k : lim_addr) (h : list rl_arrival) (vs : list bool) : list bool :=
+  match h, vs with
+  | (_, a, _) :: h', v :: vs' =>
+      if addr_eqb (cfg_subnet c a) k then v :: rl_verdicts_for c k h' vs' else rl_verdicts_for c k h' vs'
+  | _, _ => []
+  end.
+
+(* total (unscaled) cost GRANTED (result RlOk) for subnet key k at times within [t0, t1] *)
+Fixpoint rl_granted (o : opts) (k : lim_addr) (t0 t1 : Z) (h : list rl_arrival) (ds : list rl_res) : Z :=
+  match h, ds with
+  | (t, a, n) :: h', d :: ds' =>
+      (match d with
+       | RlOk => if addr_eqb (mask_addr o a) k && (t0 <=? t) && (t <=? t1) then n else 0
+       | _ => 0
+       end) + rl_granted o k t0 t1 h' ds'
+  | _, _ => 0
+  end.
+
+Definition rl_events (h : list rl_arrival) : list lev := map (fun e : rl_arrival => EvAllow (fst (fst e)) (snd (fst e)) (snd e)) h.
+
+(* the client limiter's table inside a resourceLimiter *)
+Definition rl_table (r : rl) : lim_table := match rl_client r with Some (_, t) => t | None => [] end.
+Fixpoint rl_final (r : rl) (h : list rl_arrival) : rl :=
+  match h with [] => r | (now, a, n) :: h' => rl_final (fst (rl_allow r now a n)) h' end.
+
+(* The WRONG order (client bucket first, then the global one): what the code must not do.  A query the global bucket
+   refuses has then already consumed the tokens of its subnet (Props: C15_client_first_refuted). *)
+Definition rl_allow_client_first (r : rl) (now : Z) (a : lim_addr) (n : Z) : rl * rl_res :=
+  match a with
+  | LANone => (r, RlOk)
+  | _ =>
+    let c := match rl_client r with
+             | Some (o, t) => let s := lim_step o t (EvAllow now a n) in
+                              (Some (o, fst s), match snd s with Some false => false | _ => true end)
+             | None => (None, true)
+             end in
+    if snd c then
+      match rl_global r with
+      | Some (lim, b) => let x := allow_bucket lim lim b now n in
+                         (mkRl (Some (lim, snd x)) (fst c), if fst x then RlOk else RlGlobal)
+      | None => (mkRl None (fst c), RlOk)
+      end
+    else (mkRl (rl_global r) (fst c), RlClient)
+  end.
+
+Fixpoint rl_decisions_client_first (r : rl) (h : list rl_arrival) : list rl_res :=
+  match h with
+  | [] => []
+  | (now, a, n) :: h' => snd (rl_allow_client_first r now a n)
+                         :: rl_decisions_client_first (fst (rl_allow_client_first r now a n)) h'
+  end.
+
 (* what a client observes *)
 Inductive lim_outcome :=
 | OAccepted        (* connection accepted *)
@@ -348,7 +443,8 @@ Inductive lim_outcome :=
 | OAnswered        (* query handled: forwarded (or served from cache), reply written *)
 | ORefused         (* DNS reply with RCODE 5, nothing else done *)
 | O503             (* HTTP status 503, nothing else done *)
-| OStreamClosed.   (* QUIC: stream closed without a reply *)
+| OStreamClosed    (* QUIC: stream closed without a reply *)
+| OBadRequest.     (* HTTP status 400: the client address header does not parse; nothing else done *)
 
 Definition forwards (x : lim_outcome) : bool := match x with OAnswered => true | _ => false end.
 
@@ -382,12 +478,16 @@ Definition accept_query (r : rl) (now : Z) (l : lim_listener) (a : lim_addr) (hi
   then (fst (rl_allow (fst x) now a (if hit then costFromCache else costFromUpstream)), OAnswered)
   else (fst x, refusal l).
 
-Inductive aev := AConn (l : lim_listener) (a : lim_addr) | AQuery (l : lim_listener) (a : lim_addr) (hit : bool).
+(* ABadAddr: an HTTP request whose client_addr_header value does not parse as an address (ServeHTTP answers 400 and
+   returns before the limiter, the handler and the upstream are involved) *)
+Inductive aev := AConn (l : lim_listener) (a : lim_addr) | AQuery (l : lim_listener) (a : lim_addr) (hit : bool)
+               | ABadAddr (l : lim_listener).
 
 Definition listener_step (r : rl) (now : Z) (e : aev) : rl * lim_outcome :=
   match e with
   | AConn l a => accept_conn r now l a
   | AQuery l a hit => accept_query r now l a hit
+  | ABadAddr _ => (r, OBadRequest)
   end.
 
 (* a script of lim_listener events, all at time [now] (the e2e scenario is shorter than one refill) *)
